@@ -254,26 +254,66 @@ theorem psV5Connect_eff {c : C} (h : Wf c) (p : Pkt) : Eff (psV5ConnectClears c 
       Bool.not_true, Bool.not_false] <;>
     apply Eff.of_proj h <;> eff_tac
 
-theorem psV3Connack_eff {c : C} (h : Wf c) (p : Pkt) : Eff false c (psV3Connack c p) := by
-  unfold psV3Connack
-  split
-  · exact Eff.of_quiet h (by quiet_tac)
-  split
-  · exact Eff.of_quiet h (by quiet_tac)
-  · refine Eff.quiet_right ?_ (sendPostProcess_q _)
-    exact Eff.via h (by quiet_tac) (fun h' => sendStored_eff h')
+/-- `clearStoreRelated` runs in `psV3Connack`: an accepted CONNACK(success) sent with session
+    present = false (a new session starts) -/
+def psV3ConnackClears (c : C) (p : Pkt) : Bool :=
+  decide (c.s.status = .connecting) && decide (p.rc = some 0) && !p.sp
+def psV5ConnackClears (c : C) (p : Pkt) : Bool :=
+  sizeOk c p && decide (c.s.status = .connecting) && decide (p.rc = some 0) && !p.sp
 
-theorem psV5Connack_eff {c : C} (h : Wf c) (p : Pkt) : Eff false c (psV5Connack c p) := by
-  unfold psV5Connack
-  split
-  · exact Eff.of_quiet h (by quiet_tac)
-  split
-  · exact Eff.of_quiet h (by quiet_tac)
-  by_cases hrc : p.rc = some 0
-  · simp only [hrc, if_true, ne_eq, not_true_eq_false, if_false]
-    refine Eff.quiet_right ?_ (sendPostProcess_q _)
-    exact Eff.via h (Quiet.trans (propsFold_connackSendProp_q c p.props) (by quiet_tac)) (fun h' => sendStored_eff h')
-  · simp only [hrc, if_false, ne_eq, not_false_eq_true, if_true]
+theorem psV3ConnackClears_of_rc {c : C} {p : Pkt} (h : p.rc ≠ some 0) : psV3ConnackClears c p = false := by
+  simp [psV3ConnackClears, h]
+theorem psV5ConnackClears_of_rc {c : C} {p : Pkt} (h : p.rc ≠ some 0) : psV5ConnackClears c p = false := by
+  simp [psV5ConnackClears, h]
+
+/-- the CONNACK built for a refused CONNECT never clears -/
+theorem psV3ConnackClears_errRc (c : C) (e : Nat) : psV3ConnackClears c (mkV3Connack (v3ConnectErrRc e)) = false := by
+  apply psV3ConnackClears_of_rc
+  simp only [mkV3Connack, v3ConnectErrRc]; repeat' split
+  all_goals simp
+theorem psV5ConnackClears_errRc (c : C) (e : Nat) : psV5ConnackClears c (mkV5Connack (v5ConnectErrRc e)) = false := by
+  apply psV5ConnackClears_of_rc
+  simp only [mkV5Connack, v5ConnectErrRc]; repeat' split
+  all_goals simp
+
+theorem psV3Connack_eff {c : C} (h : Wf c) (p : Pkt) : Eff (psV3ConnackClears c p) c (psV3Connack c p) := by
+  unfold psV3Connack psV3ConnackClears
+  by_cases hs : c.s.status = .connecting
+  · simp only [hs, ne_eq, not_true_eq_false, if_false, decide_true, Bool.true_and]
+    by_cases hrc : p.rc = some 0
+    · simp only [hrc, not_true_eq_false, if_false, decide_true, Bool.true_and]
+      refine Eff.quiet_right ?_ (sendPostProcess_q _)
+      cases hsp : p.sp
+      · simp only [Bool.false_eq_true, if_false, Bool.not_false]
+        exact Eff.via h (by quiet_tac) (fun h' => clearStoreRelated_eff h')
+      · simp only [if_true, Bool.not_true]
+        exact Eff.via h (by quiet_tac) (fun h' => sendStored_eff h')
+    · simp only [hrc, not_false_eq_true, if_true, decide_false, Bool.false_and]
+      exact Eff.of_quiet h (by quiet_tac)
+  · simp only [hs, ne_eq, not_false_eq_true, if_true, decide_false, Bool.false_and]
+    exact Eff.of_quiet h (by quiet_tac)
+
+theorem psV5Connack_eff {c : C} (h : Wf c) (p : Pkt) : Eff (psV5ConnackClears c p) c (psV5Connack c p) := by
+  unfold psV5Connack psV5ConnackClears
+  cases hz : sizeOk c p
+  · simp only [Bool.not_false, if_true, Bool.false_and]
+    exact Eff.of_quiet h (by quiet_tac)
+  simp only [Bool.not_true, Bool.false_eq_true, if_false, Bool.true_and]
+  by_cases hs : c.s.status = .connecting
+  · simp only [hs, ne_eq, not_true_eq_false, if_false, decide_true, Bool.true_and]
+    by_cases hrc : p.rc = some 0
+    · simp only [hrc, if_true, not_true_eq_false, if_false, decide_true, Bool.true_and]
+      refine Eff.quiet_right ?_ (sendPostProcess_q _)
+      cases hsp : p.sp
+      · simp only [Bool.false_eq_true, if_false, Bool.not_false]
+        exact Eff.via h (Quiet.trans (propsFold_connackSendProp_q c p.props) (by quiet_tac))
+          (fun h' => clearStoreRelated_eff h')
+      · simp only [if_true, Bool.not_true]
+        exact Eff.via h (Quiet.trans (propsFold_connackSendProp_q c p.props) (by quiet_tac))
+          (fun h' => sendStored_eff h')
+    · simp only [hrc, if_false, not_false_eq_true, if_true, decide_false, Bool.false_and]
+      exact Eff.of_quiet h (by quiet_tac)
+  · simp only [hs, ne_eq, not_false_eq_true, if_true, decide_false, Bool.false_and]
     exact Eff.of_quiet h (by quiet_tac)
 
 theorem psV3Publish_eff {c : C} (h : Wf c) (p : Pkt) : Eff false c (psV3Publish c p) := by
@@ -330,9 +370,12 @@ theorem psSubUnsub_eff {c : C} (h : Wf c) (p : Pkt) : Eff false c (psSubUnsub c 
   (repeat' split) <;> eff_branch
 
 def processSendClears (c : C) (p : Pkt) : Bool :=
-  if p.kind = .connect then (if p.ver = 4 then psV3ConnectClears c p else psV5ConnectClears c p) else false
+  if p.kind = .connect then (if p.ver = 4 then psV3ConnectClears c p else psV5ConnectClears c p)
+  else if p.kind = .connack then (if p.ver = 4 then psV3ConnackClears c p else psV5ConnackClears c p)
+  else false
 
-/-- `clearStoreRelated` runs in `send c p`: an accepted CONNECT with clean start -/
+/-- `clearStoreRelated` runs in `send c p`: an accepted CONNECT with clean start, or an accepted
+    CONNACK(success) with session present = false -/
 def sendClears (c : C) (p : Pkt) : Bool :=
   decide (c.s.ver = p.ver) && roleMaySend c.cfg.role p && processSendClears c p
 
